@@ -3,15 +3,21 @@
   Property theorems only; helper lemmas live in Rtp/Proofs/VLA.lean.
 -/
 import Rtp.Proofs.VLA
+import Rtp.Proofs.VLABuf
 import Rtp.Pred.C19
 namespace Rtp.Props.C19
 open Rtp Rtp.Spec.VlaSpec Rtp.Model.Vla Rtp.Pred.C19
 
+/-- The statement-by-statement model of Marshal (`marshalGo`: index writes into a zeroed buffer of
+    `requiredLen` bytes, panicking where Go would) equals the section model (`marshal`) on every
+    input; the theorems below are stated about `marshalGo`, which is what the driver runs. -/
+theorem c19_marshal_sections (v : VLA) : marshalGo v = marshal v := marshalGo_eq_marshal v
+
 /-- Marshal of a valid allocation returns exactly the bytes the specification prescribes —
     in particular the buffer it sizes beforehand is filled completely (no surplus byte) and never
     overrun (no panic). -/
-theorem c19_encode (v : VLA) (h : v.WF) : marshal v = .ok (encode v) :=
-  marshal_eq_encode v h
+theorem c19_encode (v : VLA) (h : v.WF) : marshalGo v = .ok (encode v) := by
+  rw [c19_marshal_sections]; exact marshal_eq_encode v h
 
 /-- non-vacuity: the three-stream allocation of TestVLAMarshal (with resolutions), two streams
     with different bitmasks (§7 #20) and a paused stream next to an active one (§7 #21) are valid,
@@ -143,7 +149,8 @@ example : unmarshal default [0x01, 0x00, 0x96, 0x81] = .fail 2 .leb := by decide
 
 /-- Marshal rejects: stream count ∉ 1..4, RID ∉ [0, count), a layer whose stream id ∉ [0, count),
     spatial id ∉ 0..3 or temporal layer count ∉ 1..4, and two layers in the same slot. -/
-theorem c19_rejects (v : VLA) (h : mustReject v = true) : ∃ e, marshal v = .err e := by
+theorem c19_rejects (v : VLA) (h : mustReject v = true) : ∃ e, marshalGo v = .err e := by
+  rw [c19_marshal_sections]
   unfold marshal
   by_cases h1 : v.count ≤ 0 ∨ v.count > 4
   · have : (decide (v.count ≤ 0) || decide (v.count > 4)) = true := by simpa using h1
@@ -173,30 +180,32 @@ theorem c19_rejects (v : VLA) (h : mustReject v = true) : ∃ e, marshal v = .er
 
 /-- the same, one clause per kind of defect, with the error Marshal returns -/
 theorem c19_rejects_count (v : VLA) (h : v.count < 1 ∨ v.count > 4) :
-    marshal v = .err .streamCount := by
+    marshalGo v = .err .streamCount := by
+  rw [c19_marshal_sections]
   have : (decide (v.count ≤ 0) || decide (v.count > 4)) = true := by
     simp only [Bool.or_eq_true, decide_eq_true_eq]; omega
   simp [marshal, this]
 
 theorem c19_rejects_rid (v : VLA) (hc : 1 ≤ v.count ∧ v.count ≤ 4) (h : v.rid < 0 ∨ v.rid ≥ v.count) :
-    marshal v = .err .streamID := by
+    marshalGo v = .err .streamID := by
+  rw [c19_marshal_sections]
   have h1 : (decide (v.count ≤ 0) || decide (v.count > 4)) = false := by
     simp only [Bool.or_eq_false_iff, decide_eq_false_iff_not]; omega
   have h2 : (decide (v.rid < 0) || decide (v.rid ≥ v.count)) = true := by simpa using h
   simp [marshal, h1, h2]
 
 /-- non-vacuity: the literal cases of TestVLAMarshal -/
-example : marshal ⟨0, 5, [default, default, default, default, default], false⟩ = .err .streamCount := by decide
-example : marshal ⟨0, 1, [⟨0, 5, [], 0, 0, 0⟩], false⟩ = .err .spatialID := by decide
-example : marshal ⟨0, 1, [⟨0, 0, [100, 200, 300, 400, 500], 0, 0, 0⟩], false⟩ = .err .temporal := by decide
-example : marshal ⟨0, 1, [⟨0, 0, [100], 0, 0, 0⟩, ⟨0, 0, [200], 0, 0, 0⟩], false⟩ = .err .duplicate := by decide
+example : marshalGo ⟨0, 5, [default, default, default, default, default], false⟩ = .err .streamCount := by decide
+example : marshalGo ⟨0, 1, [⟨0, 5, [], 0, 0, 0⟩], false⟩ = .err .spatialID := by decide
+example : marshalGo ⟨0, 1, [⟨0, 0, [100, 200, 300, 400, 500], 0, 0, 0⟩], false⟩ = .err .temporal := by decide
+example : marshalGo ⟨0, 1, [⟨0, 0, [100], 0, 0, 0⟩, ⟨0, 0, [200], 0, 0, 0⟩], false⟩ = .err .duplicate := by decide
 
 /-- "No surplus bytes", spelled out: the payload of a valid allocation is one header byte, the
     per-stream bitmask block only when there is no shared bitmask (one byte for 1–2 streams, two
     for 3–4), one #tl byte per four layers, the LEB128 bitrates, and five bytes per layer when
     resolutions are present. -/
 theorem c19_encode_length (v : VLA) (h : v.WF) :
-    ∃ b, marshal v = .ok b ∧
+    ∃ b, marshalGo v = .ok b ∧
       b.length = 1 + (if slBm v = 0 then (ns v + 1) / 2 else 0) + (v.layers.length + 3) / 4 +
         (bitrates v).length + (if v.hasRes then 5 * v.layers.length else 0) := by
   refine ⟨encode v, c19_encode v h, ?_⟩
@@ -230,7 +239,8 @@ theorem c19_encode_injective (hleb : Model.LebGoSpec) (v w : VLA) (hv : v.WF) (h
 /-- Marshal never panics, whatever the allocation (valid, rejected, or accepted though not valid:
     unsorted layers, negative bitrates, out-of-range resolutions): once validation has passed, the
     buffer it sizes is filled exactly. -/
-theorem c19_marshal_total (v : VLA) : marshal v ≠ .panic := marshal_ne_panic v
+theorem c19_marshal_total (v : VLA) : marshalGo v ≠ .panic := by
+  rw [c19_marshal_sections]; exact marshal_ne_panic v
 
 /-- The predicate of kinds c19.rt / c19.rej holds of the model on EVERY input outside the region
     of the open finding: valid allocations encode per spec and round-trip, allocations that must be
@@ -244,7 +254,7 @@ theorem c19_rt (hleb : Model.LebGoSpec) (v r : VLA) (hsmall : bigRate v = false)
       simp [Pred.C19.rt, h, hm, rtModel, he, isErr]
     · have hp := c19_marshal_total v
       simp only [Pred.C19.rt, h, if_false, hm, Bool.false_eq_true, rtModel]
-      cases hmv : marshal v with
+      cases hmv : marshalGo v with
       | panic => exact absurd hmv hp
       | err e => simp
       | ok b =>
